@@ -89,3 +89,138 @@ def is_mgr(ep):
 
 def is_sbr(ep):
     return ep.get("sbr_port_protocol") is not None
+
+
+# ---------------------------------------------------------------------------------------------- topology spec (C04, C06)
+DIRNUM = {"NORTH": 0, "EAST": 1, "SOUTH": 2, "WEST": 3, "EJECT": 4}
+
+
+def dirnum(v):
+    if v is None:
+        return None
+    if isinstance(v, str):
+        return DIRNUM[v.upper()]
+    return v
+
+
+def seq(a, b):
+    return list(range(a, b + 1)) if a <= b else list(range(a, b - 1, -1))
+
+
+def node_table(desc):
+    """name of every node the description denotes -> kind; routers by array/tree/single, endpoints by shape"""
+    import itertools
+    nodes = {}
+    for rt in desc["routers"]:
+        arr, tree = rt.get("array"), rt.get("tree")
+        if arr is not None:
+            arr = [arr] if isinstance(arr, int) else list(arr)
+            for idx in itertools.product(*[range(x) for x in arr]):
+                nodes[rt["name"] + "".join(f"_{i}" for i in idx)] = ("router", rt["name"], idx)
+        elif tree is not None:
+            tree = [tree] if isinstance(tree, int) else list(tree)
+
+            def rec(parent, lvl, idx):
+                if lvl == len(tree):
+                    return
+                for i in range(tree[lvl]):
+                    n = f"{parent}_{i}"
+                    nodes[n] = ("router", rt["name"], idx + (i,), lvl)
+                    rec(n, lvl + 1, idx + (i,))
+            rec(rt["name"], 0, ())
+        else:
+            nodes[rt["name"]] = ("router", rt["name"], ())
+    for inst in instances(desc):
+        nodes[inst["node"]] = ("endpoint", inst["ep"], inst["idx"], inst["ni"])
+    return nodes
+
+
+def select(desc, nodes, name, idx, rng, lvl):
+    """the nodes a connection end addresses, in row-major / creation order; None if it addresses a missing node"""
+    import itertools
+    if idx is None and rng is None and lvl is None:
+        sel = [name]
+    elif idx is not None and rng is None and lvl is None:
+        idx = [idx] if isinstance(idx, int) else idx
+        sel = [name + "".join(f"_{i}" for i in idx)]
+    elif rng is not None and idx is None and lvl is None:
+        sel = [name + "".join(f"_{i}" for i in t) for t in itertools.product(*[seq(a, b) for a, b in rng])]
+    elif lvl is not None and idx is None and rng is None:
+        sel = [n for n, v in nodes.items() if v[0] == "router" and v[1] == name and len(v) == 4 and v[3] == lvl]
+    else:
+        return None
+    if any(n not in nodes for n in sel):
+        return None
+    return sel
+
+
+def described_links(desc):
+    """unordered links the description denotes: list of (node_a, node_b, dir_at_a, dir_at_b);
+    endpoints are replaced by their network interface.  None if the description is not well-formed."""
+    nodes = node_table(desc)
+    links = []
+    for rt in desc["routers"]:
+        arr = rt.get("array")
+        if arr is not None and rt.get("auto_connect", True) is not False and not isinstance(arr, int) and len(arr) == 2:
+            m, n = arr
+            nm = rt["name"]
+            for i in range(m):
+                for j in range(n):
+                    if i > 0:
+                        links.append((f"{nm}_{i}_{j}", f"{nm}_{i-1}_{j}", 3, 1))
+                    if j > 0:
+                        links.append((f"{nm}_{i}_{j}", f"{nm}_{i}_{j-1}", 2, 0))
+        if rt.get("tree") is not None and rt.get("auto_connect", True) is not False:
+            for n, v in nodes.items():
+                if v[0] == "router" and v[1] == rt["name"] and len(v) == 4 and v[3] > 0:
+                    links.append((n.rsplit("_", 1)[0], n, None, None))
+
+    def ni(n):
+        v = nodes[n]
+        return v[3] if v[0] == "endpoint" else n
+
+    for c in desc["connections"]:
+        srcs = select(desc, nodes, c["src"], c.get("src_idx"), c.get("src_range"), c.get("src_lvl"))
+        dsts = select(desc, nodes, c["dst"], c.get("dst_idx"), c.get("dst_range"), c.get("dst_lvl"))
+        if srcs is None or dsts is None or not srcs or not dsts:
+            return None
+        ns, nd = len(srcs), len(dsts)
+        if ns == nd:
+            pass
+        elif c.get("allow_multi") and ns % nd == 0 and ns > nd:
+            k = ns // nd
+            dsts = [d for d in dsts for _ in range(k)]
+        elif c.get("allow_multi") and nd % ns == 0 and nd > ns:
+            k = nd // ns
+            srcs = [s for s in srcs for _ in range(k)]
+        else:
+            return None
+        for s, d in zip(srcs, dsts):
+            links.append((ni(s), ni(d), dirnum(c.get("src_dir")), dirnum(c.get("dst_dir"))))
+    return links
+
+
+def xy_grid(desc):
+    """for an XY description over one auto-connected m x n array: (m, n, [(ni, i, j, port)...]) or None"""
+    rts = desc["routers"]
+    if len(rts) != 1 or rts[0].get("array") is None or isinstance(rts[0]["array"], int) or len(rts[0]["array"]) != 2:
+        return None
+    m, n = rts[0]["array"]
+    nodes = node_table(desc)
+    links = described_links(desc)
+    if links is None:
+        return None
+    att = []
+    for a, b, da, db in links:
+        ka, kb = nodes.get(a), nodes.get(b)
+        if ka is not None and kb is not None:
+            continue  # router-router
+        if ka is not None and ka[0] == "router":
+            att.append((b, ka[2][0], ka[2][1], da))
+        elif kb is not None and kb[0] == "router":
+            att.append((a, kb[2][0], kb[2][1], db))
+        else:
+            return None
+    if any(p is None for _, _, _, p in att):
+        return None
+    return (m, n, att)
